@@ -1,6 +1,7 @@
 package wal
 
 import (
+	"bytes"
 	"encoding/binary"
 	"errors"
 	"io"
@@ -59,14 +60,16 @@ func DecodeRecord(r io.Reader) (RecordType, []byte, uint32, error) {
 		return 0, nil, 0, utils.ErrEmptyRecord
 	}
 
-	// Allocate buffer for type byte + payload.
-	buf := make([]byte, length)
-	if _, err := io.ReadFull(r, buf); err != nil {
+	// Read type byte + payload. The length prefix is not trusted with an allocation:
+	// the buffer grows with the bytes that are actually present.
+	var body bytes.Buffer
+	if _, err := io.CopyN(&body, r, int64(length)); err != nil {
 		if errors.Is(err, io.EOF) || errors.Is(err, io.ErrUnexpectedEOF) {
 			return 0, nil, 0, utils.ErrPartialRecord
 		}
 		return 0, nil, 0, err
 	}
+	buf := body.Bytes()
 
 	var crcBuf [4]byte
 	if _, err := io.ReadFull(r, crcBuf[:]); err != nil {
